@@ -6,6 +6,8 @@ re-queue it is in flight: a DeliverMessage / UpdateAwaitResults for it, or a lin
 (AwaitAction → QueryAndAwait → ProcessResults → UpdateAwaitResults).
 -/
 namespace QM.Sys
+set_option linter.unusedSectionVars false
+variable [Cfg]
 
 /-- is this source ready in the process's local state, clock aside? -/
 def srcLocal (x : Proc) : Src → Bool
